@@ -175,6 +175,79 @@ Theorem c05_searcher_failure_fills_slot :
 Proof. exact searcher_failure_fills_slot. Qed.
 Print Assumptions c05_searcher_failure_fills_slot.
 
+(* ---- DEHB's bracket manager (dehb_bracket_manager.py / dehb_bracket.py) --------------------
+   [drun_from first md nb ops]: a DifferentialEvolutionHyperbandBracketManager built from the first
+   bracket's rungs [first] with [nb] brackets per iteration, driven by DNext (request for work) and
+   DRet i t v (the i-th outstanding job returns with trial id t and metric v / NaN). *)
+
+(* no assertion / exception of next_job / on_result is reachable *)
+Theorem c05_dehb_no_error :
+  forall first md nb ops m0, dehb_mgr_init first md nb = Ok m0 ->
+    exists st, drun_from first md nb ops = Ok st.
+Proof. exact dehb_no_error. Qed.
+Print Assumptions c05_dehb_no_error.
+
+(* bracket j uses rung system j mod num_offsets (the suffix of the first bracket's rungs), its
+   completed rungs are fully occupied by (trial, value) and its higher rungs are untouched *)
+Theorem c05_dehb_rungs_filled :
+  forall first md nb ops m0 st, dehb_mgr_init first md nb = Ok m0 ->
+  drun_from first md nb ops = Ok st ->
+  length (m_offsets (d_mgr st)) = length (m_brackets (d_mgr st)) /\
+  forall j b, nth_error (m_brackets (d_mgr st)) j = Some b ->
+    let rss := dehb_rss first nb in
+    nth_error (m_offsets (d_mgr st)) j = Some (j mod length rss)%nat /\
+    map entry_shape (rungs b) = nth (j mod length rss) rss [] /\
+    (forall k sl lv, (k < current_rung b)%nat -> nth_error (rungs b) k = Some (Filled sl lv) ->
+       Forall (fun s => exists t v, s = (Some t, Some v)) sl) /\
+    (forall k sl lv, (current_rung b < k)%nat -> nth_error (rungs b) k = Some (Filled sl lv) ->
+       Forall (fun s => s = (None, None)) sl).
+Proof. exact dehb_rungs_filled. Qed.
+Print Assumptions c05_dehb_rungs_filled.
+
+(* a request for work never blocks, lowest open bracket with a free slot first, a new bracket
+   exactly when none has a free slot; DEHB jobs never carry a trial id *)
+Theorem c05_dehb_never_blocks :
+  forall first md nb ops m0 st, dehb_mgr_init first md nb = Ok m0 ->
+  drun_from first md nb ops = Ok st ->
+  exists m' bid s, dehb_next_job (d_mgr st) = Ok (m', (bid, s)) /\ trial_id s = None /\
+    (m_primary (d_mgr st) <= bid)%nat /\
+    ((length (m_brackets m') = length (m_brackets (d_mgr st)) /\ (bid < length (m_brackets (d_mgr st)))%nat /\
+      (exists b, nth_error (m_brackets (d_mgr st)) bid = Some b /\ has_free_slot b = true) /\
+      (forall j bj, (m_primary (d_mgr st) <= j < bid)%nat -> nth_error (m_brackets (d_mgr st)) j = Some bj ->
+                    has_free_slot bj = false))
+     \/ (length (m_brackets m') = S (length (m_brackets (d_mgr st))) /\ bid = length (m_brackets (d_mgr st)) /\
+         forall j b, (m_primary (d_mgr st) <= j)%nat -> nth_error (m_brackets (d_mgr st)) j = Some b ->
+                     has_free_slot b = false)).
+Proof. exact dehb_never_blocks. Qed.
+Print Assumptions c05_dehb_never_blocks.
+
+(* top_of_previous_rung(bracket, pos) enumerates get_top_list of the completed rung below the
+   current one with new_len = size of the current rung (<= its length): by c05_top_k a best-k set
+   with failed entries last whenever the caller gave distinct trial ids *)
+Theorem c05_dehb_top_of_previous_rung :
+  forall first md nb ops m0 st bid b sl lv,
+  dehb_mgr_init first md nb = Ok m0 -> drun_from first md nb ops = Ok st ->
+  nth_error (m_brackets (d_mgr st)) bid = Some b -> current_rung_and_level b = Ok (sl, lv) ->
+  (0 < current_rung b)%nat ->
+  exists prev lvp vals top rest,
+    nth_error (rungs b) (current_rung b - 1) = Some (Filled prev lvp) /\
+    occupied_values prev = Some vals /\
+    get_top_list md vals (length sl) = (top, rest) /\
+    (length sl <= length vals)%nat /\ length top = length sl /\
+    top_list_for_previous_rung b = Ok top /\
+    forall pos t, nth_error top pos = Some t -> top_of_previous_rung (d_mgr st) bid pos = Ok t.
+Proof. exact dehb_top_of_previous_rung. Qed.
+Print Assumptions c05_dehb_top_of_previous_rung.
+
+(* regression example of former finding F-C05-2: the parent slot of a higher rung is found when
+   there are fewer brackets per iteration than rung levels (an example, not a general theorem) *)
+Theorem c05_dehb_parent_slot_example :
+  exists st bid s,
+    drun_from dehb_witness_first Min (Some 1%nat) dehb_witness_ops = Ok st /\ In (bid, s) (d_out st) /\
+    trial_id_from_parent_slot (d_mgr st) bid (level s) (slot_index s) = Ok (Some 6%Z).
+Proof. exact dehb_parent_slot_example. Qed.
+Print Assumptions c05_dehb_parent_slot_example.
+
 (* non-vacuity: a rung system accepted by the constructor; three workers, one job fails, the
    first rung completes with a tie, the best two (stable order) are promoted, a second bracket
    was opened while the first one waited. *)
@@ -193,5 +266,12 @@ Example c05_example :
   | Error _ => False
   end /\
   get_top_list Max [(Some 1%Z, Val 1); (Some 2%Z, NaN); (Some 3%Z, Val 2); (Some 4%Z, Val 2)] 2
-    = ([Some 3%Z; Some 4%Z], [Some 1%Z; Some 2%Z]).
-Proof. vm_compute. repeat split; eexists; repeat split. Qed.
+    = ([Some 3%Z; Some 4%Z], [Some 1%Z; Some 2%Z]) /\
+  (* the searcher fails for the 2nd job: no trial, the slot holds NaN, the run goes on *)
+  (exists st, run_from rss Min [OSuggest true; OSuggest false; OSuggest true] = Ok st /\
+              map fst (s_pending st) = [0; 1]%Z) /\
+  (* DEHB: 2 brackets per iteration of a 2-level system; first rung (2 slots) filled *)
+  (exists m0 st, dehb_mgr_init [(2%nat, 1%Z); (1%nat, 3%Z)] Max None = Ok m0 /\
+     drun_from [(2%nat, 1%Z); (1%nat, 3%Z)] Max None [DNext; DNext; DRet 1 7 (Val 1); DRet 0 8 NaN] = Ok st /\
+     top_of_previous_rung (d_mgr st) 0 0 = Ok (Some 7%Z)).
+Proof. vm_compute. repeat split; repeat eexists. Qed.
